@@ -35,7 +35,7 @@ type profile struct {
 
 func defaultProfile() profile {
 	return profile{
-		encsMain: []string{"I32"}, encsSmall: []string{"String16", "VarEnc"},
+		encsMain: []string{"I32"}, encsSmall: []string{"String16", "VarEnc", "Type", "Bytes3", "U64", "I8"},
 		insts:  []string{h.InstFresh, h.InstUnm, h.InstProto},
 		needQs: true, nilVals: true,
 		quickIDk: 4, quickScafK: 3, thoroughIDk: 6, thoroughScafK: 4, u85k: 3,
